@@ -9,6 +9,7 @@
                            test, directly or via a local Vec that is only filled under the test.
   EXPORT-BOOKKEEPING       load_toplevel_items_: Visibility::Public => exported_syms.insert, CurrentFile => remove, on every path
                            of the Fun arm; nobody else mutates exported_syms.
+  FRAME-NAMESPACE          every call frame's namespace is that of the file defining the callee (FunInfo.pos / the test's name).
   CYCLE-GUARD              the recursive load is on the false edge of paths_seen.contains(path) and after paths_seen.insert(path).
 """
 from .. import mir as M
@@ -313,6 +314,63 @@ def run(ctx, res):
             res.bad("CYCLE-GUARD", L.path + " # recursion",
                     "the recursive import load is not guarded by `paths_seen.contains(path)` false-edge + `paths_seen.insert(path)` (cyclic imports would loop)",
                     L.loc(t["span"]))
+    # ---------------- FRAME-NAMESPACE: the body of a function, method, closure or test resolves bare names in the namespace
+    # of the file that *defines* it. Every call frame's `namespace` is get_or_create_namespace(<path>) with <path> taken from
+    # the callee's own definition (FunInfo.pos, or the test's name symbol), never from a position of the call site: otherwise a
+    # library method called from another file sees that file's private definitions and loses its own.
+    n_frames = 0
+    for p_, g in sorted(P.funcs.items()):
+        if not p_.startswith("eval::"):
+            continue
+        for b_ in g.blocks:
+            for st in b_["stmts"]:
+                if st.get("s") != "assign" or st["rv"]["k"] != "agg" or st["rv"].get("adt") != "env::StackFrame":
+                    continue
+                rv = st["rv"]
+                n_frames += 1
+                r = g.root_of(rv["ops"][rv["fields"].index("namespace")], through_named=True)
+                chain = []
+                for _ in range(8):
+                    if r[0] != "call":
+                        break
+                    chain.append((M.callee_name(r[2]) or "?").split("::")[-1])
+                    if not r[2]["args"]:
+                        break
+                    a_ = r[2]["args"][-1] if chain[-1] == "get_or_create_namespace" else r[2]["args"][0]
+                    r = g.root_of(a_, through_named=True)
+                fields = [(e.get("name"), e.get("adt")) for e in r[1]["p"] if isinstance(e, dict) and "name" in e] if r[0] == "place" else []
+                key = "%s # frame namespace" % p_
+                from_def = ("pos", "parser::ast::FunInfo") in fields or ("name_sym", "parser::ast::TestInfo") in fields
+                if "get_or_create_namespace" in chain and from_def:
+                    res.ok("FRAME-NAMESPACE", key + ": namespace of the defining file (%s)" % ".".join(n for n, _ in fields if n))
+                else:
+                    res.bad("FRAME-NAMESPACE", key + " # not from the definition",
+                            "%s builds a call frame whose namespace does not come from the callee's own definition (%s): the callee's body would resolve "
+                            "names in another file's namespace, reaching that file's private definitions and missing its own" % (
+                                p_, ".".join(n for n, _ in fields if n) or "/".join(chain) or r[0]), g.loc(st["span"]))
+    res.floor("FRAME-NAMESPACE", "call frames built by the evaluator", n_frames, 4)
+    # ---------------- SEEN-ONLY-WHEN-LOADING: a path is marked as seen only on the way to loading it (on the not-yet-seen
+    # edge of the test of that very path). A path marked earlier -- the entry file before its own items are loaded, say --
+    # makes a cyclic import take the "already loaded" branch while the namespace is still empty, and an unqualified import
+    # then copies nothing.
+    for ib in seen_ins:
+        t = L.blocks[ib]["term"]
+        guarded = False
+        for s_ in seen_sw:
+            if s_["false"] is not None and ib in D.edge_dominated(L, s_["bb"], s_["false"]):
+                k1 = L.root_of(s_["call"]["args"][1], through_named=True)
+                k2 = L.root_of(t["args"][1], through_named=True)
+                for _ in range(3):
+                    if k2[0] == "call" and (M.callee_name(k2[2]) or "").endswith(("::clone", "::to_owned", "::to_path_buf")) and k2[2]["args"]:
+                        k2 = L.root_of(k2[2]["args"][0], through_named=True)
+                if k1[0] == "place" and k2[0] == "place" and k1[1]["l"] == k2[1]["l"]:
+                    guarded = True
+        if guarded:
+            res.ok("CYCLE-GUARD", "paths_seen.insert(path) only on the not-yet-seen edge of the test of the same path")
+        else:
+            res.bad("CYCLE-GUARD", L.path + " # marks-unloaded-path-seen",
+                    "a path is added to paths_seen without being the import that is about to be loaded: a file that imports it back takes the "
+                    "already-loaded branch while its namespace is still empty, so its public definitions are not visible there", L.loc(t["span"]))
     # ---------------- CYCLE-KEY-NORMAL: the key tested in paths_seen must be a canonical path, otherwise a
     # cycle through `..` or `.` gets a fresh identity on every round and the loader recurses without bound.
     def leaf_calls(f, op, depth=0, seen=None):
